@@ -513,7 +513,7 @@ impl Prop for C01 {
     fn runs(&self, t: Tier) -> u64 {
         match t {
             Tier::Quick => 20_000,
-            Tier::Thorough => 1_500_000,
+            Tier::Thorough => 8_000_000,
         }
     }
     fn nontrivial_rule(&self) -> &'static str {
@@ -546,7 +546,7 @@ impl Prop for C07 {
     fn runs(&self, t: Tier) -> u64 {
         match t {
             Tier::Quick => 20_000,
-            Tier::Thorough => 1_500_000,
+            Tier::Thorough => 8_000_000,
         }
     }
     fn nontrivial_rule(&self) -> &'static str {
